@@ -5,9 +5,11 @@
 (* MaxLen lines whose inner lines are core lines.  A sequence is extended     *)
 (* only while the parser would read on; after it has stopped ONE more line is *)
 (* appended (it must not be read).  Written as ndjson to the file named by    *)
-(* the environment variable GEN.                                              *)
+(* the environment variable GEN.  The enumeration can be split over NParts     *)
+(* TLC runs (constants Part, NParts; Part is overridden by environment PART).  *)
 EXTENDS KeyParser, Json, IOUtils, SequencesExt
-CONSTANTS MaxFull, MaxLen
+CONSTANTS MaxFull, MaxLen,
+          Part, NParts     \* this run enumerates the sequences whose SECOND line id is congruent Part modulo NParts (shorter ones: Part 0)
 VARIABLE x
 More(p) == TestRun(p, TRUE).more
 Ext(P, A) == UNION { {Append(p, a) : a \in A} : p \in {q \in P : More(q)} }
@@ -15,10 +17,12 @@ Ext(P, A) == UNION { {Append(p, a) : a \in A} : p \in {q \in P : More(q)} }
 DeadProbe == 29
 Dead(P) == {Append(p, DeadProbe) : p \in {q \in P : ~More(q)}}
 RECURSIVE FullLevel(_)
-FullLevel(n) == IF n = 0 THEN {<<>>} ELSE LET P == FullLevel(n - 1) IN Ext(P, AlphaIds) \cup Dead(P)
+MyPart == IF "PART" \in DOMAIN IOEnv THEN atoi(IOEnv.PART) ELSE Part
+Mine(p) == IF Len(p) < 2 THEN MyPart = 0 ELSE p[2] % NParts = MyPart
+FullLevel(n) == IF n = 0 THEN {<<>>} ELSE LET P == FullLevel(n - 1) IN {q \in Ext(P, AlphaIds) \cup Dead(P) : Len(q) # 2 \/ Mine(q)}
 RECURSIVE CoreLevel(_)
-CoreLevel(n) == IF n = 0 THEN {<<>>} ELSE Ext(CoreLevel(n - 1), CoreIds)
-FullSeqs == UNION {FullLevel(n) : n \in 0..MaxFull}
+CoreLevel(n) == IF n = 0 THEN {<<>>} ELSE {q \in Ext(CoreLevel(n - 1), CoreIds) : Len(q) # 2 \/ Mine(q)}
+FullSeqs == {q \in UNION {FullLevel(n) : n \in 0..MaxFull} : Mine(q)}
 DeepSeqs == UNION {Ext(CoreLevel(n - 1), AlphaIds) : n \in (MaxFull + 1)..MaxLen}
 Rec(p, nl) == [e |-> "Run", ids |-> p, nl |-> nl, text |-> TextsOf(p)]
 Runs == {Rec(p, nl) : p \in FullSeqs, nl \in BOOLEAN} \cup {Rec(p, TRUE) : p \in DeepSeqs}
